@@ -413,7 +413,7 @@ pub fn run_worker(args: &[String]) -> i32 {
         };
         let mut attributed = false;
         for k in &known {
-          if k.clause == clause {
+          if k.clause.split('|').any(|c| c == clause) {
             if let Some(t) = props::trigger(&k.trigger) {
               if t(&small, &clause, &detail) {
                 *known_hits.entry(k.trigger.clone()).or_insert(0) += 1;
